@@ -108,6 +108,24 @@ Print Assumptions c13_remove_server_any.
 
 (* the distinct-score hypothesis is needed: with a constant hash two nodes that
    hold the same servers in a different order disagree *)
+(* every placement call site of cluster/actions.go and cluster/sync.go (the list RoutingSites.routing_sites is
+   regenerated from the source on every run; the translator refuses a call site that is not
+   `RendezvousHash(<id of the record at hand>, c.Servers, 1)[0]`) computes `owner`: the same server on every
+   node, whatever the order of its server list *)
+Theorem c13_sites_route_by_key : forall hash key s1 s2 site,
+  In site RoutingSites.routing_sites ->
+  Permutation s1 s2 -> NoDup (map (fun s => hash (key ++ s)) s1) ->
+  site_owner site hash key s1 = site_owner site hash key s2.
+Proof. exact sites_route_by_key. Qed.
+Print Assumptions c13_sites_route_by_key.
+
+(* the generated list is consistent: its length, and every file it names (actions.go, sync.go) has call sites in it *)
+Theorem c13_sites_listed : length RoutingSites.routing_sites = RoutingSites.n_routing_sites /\
+  (forall f, In f RoutingSites.routing_files ->
+     exists fu k e, In (f, fu, k, e) RoutingSites.routing_sites).
+Proof. exact sites_listed. Qed.
+Print Assumptions c13_sites_listed.
+
 Theorem c13_collision_refuted :
   Permutation [[1]; [2]] [[2]; [1]] /\
   rv (fun _ => 0) [] [[1]; [2]] 1 = [[1]] /\ rv (fun _ => 0) [] [[2]; [1]] 1 = [[2]] /\
